@@ -377,4 +377,39 @@ theorem left_inverse_is_right (C P : Nat → Nat → Rat) (N : Nat)
   rw [this]
   simp [Fin.ext_iff]
 
+/-- the columns before the failing one are linearly independent: a kernel vector of `C` that
+vanishes from column `c` on is zero -/
+theorem gjKernel_first (C : Nat → Nat → Rat) (N c : Nat) (w : List Rat)
+    (h : gjKernel C N = some (c, w)) (v : Nat → Rat) (hsup : ∀ l, c ≤ l → v l = 0)
+    (hk : ∀ k, k < N → sumTo N (fun l => C k l * v l) = 0) : ∀ l, v l = 0 := by
+  obtain ⟨hc, _, _, _, ⟨M, hM, _⟩, _⟩ := gjKernel_spec C N c w h
+  obtain ⟨_, hA, hB⟩ := gjLoop_spec C N (augOf C N) (augOf_shape C N) (augOf_inv C N) c
+    (by omega) M hM
+  intro k
+  by_cases hkc : c ≤ k
+  · exact hsup k hkc
+  · have hkN : k < N := by omega
+    have e1 : sumTo N (fun j => matFn M k j * v j) = v k := by
+      rw [sumTo_congr (g := fun j => if j = k then v k else 0) (fun j hj => by
+        by_cases hjc : j < c
+        · rw [hB k j hkN hjc]
+          by_cases e : k = j
+          · subst e; simp
+          · have e' : ¬ j = k := fun x => e x.symm
+            simp [e, e']
+        · rw [hsup j (by omega), if_neg (by omega)]; ring), sumTo_pick N k _ hkN]
+    have e2 : sumTo N (fun j => matFn M k j * v j) = 0 := by
+      rw [sumTo_congr (g := fun j => sumTo N (fun l => matFn M k (N + l) * C l j) * v j)
+        (fun j hj => by rw [hA k j hkN hj])]
+      have sw : sumTo N (fun j => sumTo N (fun l => matFn M k (N + l) * C l j) * v j) =
+          sumTo N (fun l => matFn M k (N + l) * sumTo N (fun j => C l j * v j)) := by
+        simp only [sumTo_eq_finset, Finset.sum_mul, Finset.mul_sum]
+        rw [Finset.sum_comm]
+        apply Finset.sum_congr rfl; intro l _
+        apply Finset.sum_congr rfl; intro j _
+        ring
+      rw [sw, sumTo_congr (g := fun _ => 0) (fun l hl => by rw [hk l hl]; ring), sumTo_const]
+      ring
+    rw [← e1, e2]
+
 end Pyunicorn.Coupling
